@@ -109,15 +109,45 @@ def judge(ctx, cases, fams=None, pooledmax=0, tag="j"):
     items = bad_items(trace, res)
     if not items:
         return []
-    # shrink on the real code (search only), then let TLC judge the shrunk histories
+    # shrink on the real code (search only), then let TLC judge the shrunk histories.  Items are handled in
+    # rounds of increasing length; an item that contains an already established failing sub-history with the
+    # same failing call is explained by it and skipped (exact: its own minimal sub-history is itself enumerated).
     rb = ctx.build("reuse")
-    sp = os.path.join(ctx.scratch, "shrink_in_%d.ndjson" % ctx._n)
-    verif.write_ndjson(sp, [{"f": it["f"], "h": it["h"], "j": it["j"], "p": it["p"]} for it in items])
-    with open(sp, "rb") as fi:
-        p = ctx.run([rb, "shrink"], stdin=fi, timeout=3000)
-    shrunk = [json.loads(l) for l in p.stdout.decode().splitlines() if l.strip()]
-    if len(shrunk) != len(items):
-        raise Infra("shrinker returned %d of %d histories" % (len(shrunk), len(items)))
+    minimal = {}          # (f, kind, victim kind) -> list of failing sub-histories (tuples)
+    shrunk_pairs = []
+
+    def subseq(m, h):
+        it = iter(h)
+        return all(x in it for x in m)
+
+    for j in sorted({it["j"] for it in items}):
+        todo = []
+        for it in items:
+            if it["j"] != j:
+                continue
+            key = (it["f"], it["kind"], it["h"][-1])
+            if any(subseq(m[:-1], it["h"][:-1]) for m in minimal.get(key, ())):
+                continue
+            todo.append(it)
+        if not todo:
+            continue
+        if len(todo) > 40000:
+            log("note: %d deviating histories of length %d, shrinking the first 40000" % (len(todo), j))
+            todo = todo[:40000]
+        sp = os.path.join(ctx.scratch, "shrink_in_%d_%d.ndjson" % (ctx._n, j))
+        verif.write_ndjson(sp, [{"f": it["f"], "h": it["h"], "j": it["j"], "p": it["p"]} for it in todo])
+        with open(sp, "rb") as fi:
+            p = ctx.run([rb, "shrink"], stdin=fi, timeout=3000)
+        out = [json.loads(l) for l in p.stdout.decode().splitlines() if l.strip()]
+        if len(out) != len(todo):
+            raise Infra("shrinker returned %d of %d histories" % (len(out), len(todo)))
+        for it, sh in zip(todo, out):
+            shrunk_pairs.append((it, sh))
+            lst = minimal.setdefault((it["f"], it["kind"], it["h"][-1]), [])
+            if tuple(sh["h"]) not in lst:
+                lst.append(tuple(sh["h"]))
+    items = [p[0] for p in shrunk_pairs]
+    shrunk = [p[1] for p in shrunk_pairs]
     uniq = {}
     for it, sh in zip(items, shrunk):
         uniq.setdefault((sh["f"], tuple(sh["h"])), []).append((it, sh))
